@@ -111,6 +111,10 @@ class Face(ElementBase):
         self.edges.reverse()
         self.edges = [self.edges[i] for i in (1, 2, 3, 0)]
 
+        # each edge now runs between the same two points but the other way round
+        for edge in self.edges:
+            edge.reverse()
+
         return self
 
     def copy(self) -> "Face":
